@@ -489,6 +489,13 @@ def op_delete(st, op):
         arg = [_feat_or_id(db, i) for i in ids]
     elif form == "gen":
         arg = (x for x in [_feat_or_id(db, i) for i in ids])
+    elif form == "gen_raise":
+        # the caller's iterable delivers its items and then fails
+        def _failing(items):
+            for x in items:
+                yield x
+            raise SourceError("the iterable given to delete() failed")
+        arg = _failing([_feat_or_id(db, i) for i in ids])
     else:
         raise ValueError(form)
     r = db.delete(arg, **kw)
